@@ -2,5 +2,5 @@ SPECIFICATION Spec
 CONSTANTS
   MaxField = 1000000
   MaxNum = 30000
-  Fuel = 60
+  Fuel = 150
 CHECK_DEADLOCK FALSE
